@@ -740,7 +740,9 @@ fn enc_thmtx(rng: &mut Rng, h: &Hm, gs: &[G]) -> Vec<u8> {
     if can1 && rng.chance(3, 4) {
         flags |= 1;
     }
-    if can2 && rng.chance(3, 4) {
+    // LEFT_SIDE_BEARING_ABSENT is the known finding C11-hmtx-lsb-absent: drawn less often so that
+    // most cases exercise the rest of the decoder
+    if can2 && rng.chance(1, 5) {
         flags |= 2;
     }
     let mut o = vec![flags | if rng.chance(1, 10) { (rng.next() as u8) & 0xfc } else { 0 }];
@@ -1016,6 +1018,23 @@ fn gen_font(rng: &mut Rng) -> (Vec<u8>, Vec<u8>, usize, String) {
         return (prefix, block, index, "-".to_string());
     }
     let m = &members[index.min(nfonts - 1)];
+    // two consecutive points more than an int16 apart cannot be written as a TrueType glyph
+    // (SimpleGlyph::write refuses them): such a font is not a conforming encoder's input
+    let wide = m.gs.iter().any(|g| match g {
+        G::Simple(s) => {
+            let (mut x, mut y) = (0i32, 0i32);
+            s.pts.iter().any(|p| {
+                let w = (p.1 as i32 - x).abs() > 32767 || (p.2 as i32 - y).abs() > 32767;
+                x = p.1 as i32;
+                y = p.2 as i32;
+                w
+            })
+        }
+        _ => false,
+    });
+    if wide {
+        return (prefix, block, index, "-".to_string());
+    }
     let mut exp: Vec<(u32, String)> = m.tabs.iter().map(|t| (tabs[*t].tag, match &tabs[*t].expect { Some(d) => hex(d), None => "*".to_string() })).collect();
     exp.sort();
     let orig = format!(
